@@ -154,7 +154,7 @@ def build(w, d):
     if d[0] == "chain":
         import operator
         return {"+=": operator.add, "*=": operator.mul, "-=": operator.sub}[d[2]](build(w, d[1]), d[3])
-    return G.TEMPLATES[d[0]][1](*[w.ref(s) for s in d[1]])
+    return w.build(d[0], d[1])
 
 
 def main():
@@ -185,10 +185,10 @@ def main():
                         nt = True
                         defined.discard(o[1])
                 rac.case(ops, nontrivial=nt, sample=[G.opstr(o) for o in ops])
-    rac.section("random", "random histories of length 6..16 (seeded), same checks", "150 quick / 3000 thorough",
-                exhaustive=False)
-    for _ in range(150 if quick else 3000):
-        ops = G.random_history(rac.rng, rac.rng.randint(6, 16))
+    rac.section("random", "random histories of length 6..16 (seeded; every other one with definitions that read a nested container as a whole "
+                "and containers replaced by value), same checks", "150 quick / 3000 thorough", exhaustive=False)
+    for _k in range(150 if quick else 3000):
+        ops = G.random_history(rac.rng, rac.rng.randint(6, 16), containers=bool(_k % 2))
         run_history(rac, ops)
         rac.case(tuple(ops), sample=[G.opstr(o) for o in ops])
         if rac.out_of_time(0.9):
